@@ -187,11 +187,11 @@ func c15RunHttpRow(w *c15World, rep *c15Report, row c15HttpRow, rng *rand.Rand, 
 		if row.Exc && err == nil && st == 200 {
 			switch row.Route {
 			case "/topic/delete":
-				want = c15ByView{false, false, false, false}
+				want = c15ByView{false, false, false, false, false, true}
 			case "/channel/delete":
-				want = c15ByView{true, true, false, true}
+				want = c15ByView{true, true, false, true, true, true}
 			case "/topic/tombstone":
-				want = c15ByView{true, false, true, true}
+				want = c15ByView{true, false, true, true, true, true}
 			}
 		}
 		byKey := ""
